@@ -408,6 +408,19 @@ class BaseClientHandler:
         if not cmd.uid_command and self.pending_expunges():
             raise No("There are pending EXPUNGEs.")
 
+    ####################################################################
+    #
+    async def _flush_after_waiting(self, cmd: IMAPClientCommand) -> None:
+        """
+        Notifications queued for us while we waited for our turn on the
+        mailbox (FETCH FLAGS of messages the resync just found) describe the
+        mailbox as it was before this command does anything. Send them before
+        it does, or the client gets to see them after - and instead of - the
+        result of its own command.
+        """
+        self._no_expunges_while_waiting(cmd)
+        await self.send_pending_notifications()
+
     ##################################################################
     #
     async def send_pending_notifications(self) -> None:
@@ -1500,7 +1513,7 @@ class Authenticated(BaseClientHandler):
         self.fetch_while_pending_count = 0
         try:
             async with cmd.ready_and_okay(self.mbox):
-                self._no_expunges_while_waiting(cmd)
+                await self._flush_after_waiting(cmd)
                 msg_set = (
                     sorted(cmd.msg_set_as_set) if cmd.msg_set_as_set else []
                 )
@@ -1596,7 +1609,7 @@ class Authenticated(BaseClientHandler):
         #
         try:
             async with cmd.ready_and_okay(self.mbox):
-                self._no_expunges_while_waiting(cmd)
+                await self._flush_after_waiting(cmd)
                 msg_set = (
                     sorted(cmd.msg_set_as_set) if cmd.msg_set_as_set else []
                 )
